@@ -182,6 +182,10 @@ func c05Shapes() []c05shape {
 		// an object of which nothing but the type of its values is said
 		{Name: "object-free-form", Kind: "object", Schema: gen.S{"type": "object", "additionalProperties": gen.S{"type": "string"}},
 			Values: []any{gen.S{"a": "x"}, gen.S{"a": "x", "b": "y"}}},
+		// an object of which nothing at all is said, and one that allows whatever is not declared
+		{Name: "object-bare", Kind: "object", Schema: gen.S{"type": "object"}, Values: []any{gen.S{"a": "x"}, gen.S{"a": "x", "b": "y"}}},
+		{Name: "object-declared-and-anything-else", Kind: "object", Schema: gen.S{"type": "object", "properties": gen.S{"id": intS}, "additionalProperties": true},
+			Values: []any{gen.S{"id": 7.0}, gen.S{"id": 7.0, "z": "q"}, gen.S{"z": "q"}}},
 		{Name: "int32-enum", Kind: "prim", Schema: gen.S{"type": "integer", "format": "int32", "enum": gen.Arr(1.0, 2.0)}, Values: []any{1.0, 2.0, 3.0}},
 		{Name: "int64-enum", Kind: "prim", Schema: gen.S{"type": "integer", "format": "int64", "enum": gen.Arr(1.0, 9007199254740991.0)}, Values: []any{1.0, 9007199254740991.0, 3.0}},
 		{Name: "number-float-enum", Kind: "prim", Schema: gen.S{"type": "number", "format": "float", "enum": gen.Arr(1.5, 2.0)}, Values: []any{1.5, 2.0, 2.5}},
@@ -471,6 +475,9 @@ func c05Group(c *core.Ctx, cell c05cell, sh c05shape, required bool, qname strin
 			}
 			if sh.Name == "object-free-form" {
 				f["free_form_object"] = "true"
+			}
+			if sh.Name == "object-bare" || sh.Name == "object-declared-and-anything-else" {
+				f["open_object_undeclared_members"] = "true"
 			}
 			return f
 		}
